@@ -1,6 +1,615 @@
-//! Engine POLL (C20) — placeholder until implemented.
-use simcore::report::Replay;
-use std::collections::BTreeSet;
+//! Engine POLL (C20): the simulator is the executor. A victim call of a `#[cache_async]`
+//! function is polled by hand up to a chosen await of its body; a seeded program of other calls,
+//! invalidations, listings and clock steps runs while it is suspended; then it is resumed or
+//! dropped. For every case all poll boundaries x {resume, drop} are taken in turn (fault
+//! enumeration over cancellation points). Runs inside a shuttle execution so that a cache lock
+//! kept across the await shows up as a re-entrant / blocked acquisition instead of a hang.
+
+use crate::corpus::{FnSpec, SPECS};
+use crate::scen::{quiet_config, registered, spec, KEYSTR};
+use crate::world::{self, Script};
+use cachelito_core::verif_seams as seams;
+use serde::{Deserialize, Serialize};
+use simcore::check::*;
+use simcore::model::*;
+use simcore::report::*;
+use simcore::rng::{mix, Rng};
+use std::collections::{BTreeMap, BTreeSet};
+use std::future::Future;
+use std::panic::{catch_unwind, AssertUnwindSafe};
 use std::path::PathBuf;
-pub fn run_batch(_prop: &str, _seed: u64, _start: u64, _runs: u64, _dir: &PathBuf, _known: &BTreeSet<String>, _digests: bool) -> i32 { 2 }
-pub fn replay(_rp: &Replay, _path: &str, _quiet: bool) -> i32 { 2 }
+use std::sync::Arc;
+use std::task::{Context, Poll};
+
+pub const RULE: &str = "one evaluation = one (case, poll boundary, resume|drop) execution: a victim #[cache_async] call with 1-3 awaits is polled by hand up to await i, a seeded program (same-key call, other-key calls, conditional / group invalidation, clock steps, key listings) runs while it is suspended, then the call is resumed to completion or dropped; every boundary x mode of every case is executed. distinct_nontrivial counts distinct (function id, boundary, mode, interleaved operation kinds) tuples";
+
+#[derive(Clone, Debug, PartialEq, Serialize, Deserialize)]
+pub enum POp {
+    Call { k: Key, err: bool, size: u32, dur_ns: i64, gates: u8, inv: bool, cif: bool },
+    Adv(i64),
+    InvWith(u8),
+    InvName,
+    InvTag(String),
+}
+
+#[derive(Clone, Debug, PartialEq, Serialize, Deserialize)]
+pub struct PCase {
+    pub f: u16,
+    pub pre: Vec<POp>,
+    pub victim: POp,
+    /// number of polls given to the victim before the interleaved program (0 = never polled)
+    pub polls: u8,
+    pub resume: bool,
+    pub during: Vec<POp>,
+    pub post: Vec<POp>,
+    pub shards: u8,
+    pub salt: u64,
+}
+
+fn fail(clause: &str, owners: &[&str], detail: String) -> ! {
+    panic!("CLAUSE|{}|{}|{}", clause, owners.join(","), detail)
+}
+
+fn list_keys(reg_name: &str) -> BTreeSet<String> {
+    let seen = std::cell::RefCell::new(BTreeSet::new());
+    cachelito_core::invalidate_with(reg_name, |k: &str| {
+        seen.borrow_mut().insert(k.to_string());
+        false
+    });
+    seen.into_inner()
+}
+
+fn key_of_str(f: u16, s: &str) -> Option<Key> {
+    KEYSTR.lock().unwrap().as_ref().and_then(|m| m.get(&(f, s.to_string())).cloned())
+}
+
+fn listed(s: &FnSpec) -> BTreeSet<Key> {
+    let mut ks = BTreeSet::new();
+    for st in list_keys(s.reg_name) {
+        match key_of_str(s.id, &st) {
+            Some(k) => {
+                ks.insert(k);
+            }
+            None => fail("phantom_key", &["C20"], format!("{} lists unknown key {st:?}", s.fn_name)),
+        }
+    }
+    ks
+}
+
+fn stats(s: &FnSpec) -> Option<(u64, u64)> {
+    cachelito_core::stats_registry::get(s.reg_name).map(|x| (x.hits(), x.misses()))
+}
+
+fn cfg_of(s: &FnSpec) -> FnCfg {
+    FnCfg {
+        params: Params { flavour: s.flavour, policy: s.policy, limit: s.limit, ttl: s.ttl, max_memory: s.max_memory, weight: s.weight },
+        is_result: s.is_result,
+        has_inv_on: s.has_inv_on,
+        has_cache_if: s.has_cache_if,
+    }
+}
+
+fn to_c20(mut c: Clause, what: &str) -> Clause {
+    if !c.owners.iter().any(|o| o == "C20") {
+        c.owners.push("C20".to_string());
+    }
+    c.detail = format!("{what}: {}", c.detail);
+    c
+}
+
+struct Sim {
+    s: &'static FnSpec,
+    cfg: FnCfg,
+    model: Model,
+    now: i64,
+}
+
+impl Sim {
+    /// A complete call driven to completion on the spot, checked by the model.
+    fn full_call(&mut self, op: &POp, what: &str) {
+        if let POp::Call { k, err, size, dur_ns, gates, inv, cif } = op {
+            let s = self.s;
+            world::set_plan(s.id, *k, Script { err: *err, size: *size, shape: 0, dur_ns: *dur_ns, gates: *gates, inv_verdict: *inv, cif_verdict: *cif });
+            let (n0, i0, c0) = world::with(|w| (w.execs.len(), w.inv_seen.len(), w.cif_seen.len()));
+            seams::set_now_ns(self.now);
+            let r = (s.call)(*k);
+            let now_after = seams::peek_now_ns();
+            let (execs, inv_seen, cif_seen) = world::with(|w| (w.execs[n0..].to_vec(), w.inv_seen[i0..].to_vec(), w.cif_seen[c0..].to_vec()));
+            let owner = world::with(|w| w.execs.iter().find(|e| e.stamp == r.stamp).map(|e| (e.fn_id, e.k)));
+            if owner != Some((s.id, *k)) {
+                fail("wrong_value", &["C20", "C01"], format!("{what}: call {}({k}) returned a value produced by {:?}", s.fn_name, owner));
+            }
+            let obs = CallObs {
+                ret_stamp: r.stamp,
+                ret_err: r.is_err,
+                exec_stamp: execs.first().map(|e| e.stamp),
+                fp: r.fp,
+                inv_seen: inv_seen.iter().map(|x| x.2).collect(),
+                cif_seen: cif_seen.iter().map(|x| x.2).collect(),
+                keys_after: Some(listed(s)),
+                stats: stats(s),
+            };
+            let plan = CallPlan { k: *k, err: *err, dur_ns: now_after - self.now, inv_verdict: *inv, cif_verdict: *cif };
+            match check_call(&self.model, &self.cfg, &plan, &obs, self.now) {
+                Ok(m) => self.model = m,
+                Err(c) => {
+                    let c = to_c20(c, what);
+                    let o: Vec<&str> = c.owners.iter().map(|x| x.as_str()).collect();
+                    fail(&c.name, &o, format!("{} | fn {} #[{}]", c.detail, s.fn_name, s.attrs));
+                }
+            }
+            self.now = now_after;
+        }
+    }
+
+    fn other(&mut self, op: &POp, what: &str) {
+        let s = self.s;
+        match op {
+            POp::Call { .. } => self.full_call(op, what),
+            POp::Adv(dt) => {
+                self.now += *dt;
+                seams::set_now_ns(self.now);
+            }
+            POp::InvWith(mask) => {
+                let m = *mask;
+                let f = s.id;
+                cachelito_core::invalidate_with(s.reg_name, |k: &str| key_of_str(f, k).map_or(false, |x| m & (1 << x) != 0));
+                self.model.invalidate(&|k| m & (1 << k) != 0);
+                self.expect_keys(what);
+            }
+            POp::InvName => {
+                let hit = cachelito_core::invalidate_cache(s.reg_name);
+                if hit {
+                    self.model.clear();
+                }
+                self.expect_keys(what);
+            }
+            POp::InvTag(t) => {
+                cachelito_core::invalidate_by_tag(t);
+                if s.tags.contains(&t.as_str()) {
+                    self.model.clear();
+                }
+                self.expect_keys(what);
+            }
+        }
+    }
+
+    fn expect_keys(&self, what: &str) {
+        let got = listed(self.s);
+        if got != self.model.keys() {
+            fail(
+                "cache_corrupted_by_suspended_call",
+                &["C20"],
+                format!("{what}: {} [{}] lists {:?}, the model in which the pending call only performed its lookup holds {:?}", self.s.fn_name, self.s.attrs, got, self.model.keys()),
+            );
+        }
+        // a function that has not been called yet in this execution has no statistics entry
+        let st = stats(self.s).or(Some((0, 0)));
+        if st != Some((self.model.stat_hits, self.model.stat_misses)) {
+            fail(
+                "stats_corrupted_by_suspended_call",
+                &["C20", "C15"],
+                format!("{what}: statistics {:?}, expected ({}, {})", st, self.model.stat_hits, self.model.stat_misses),
+            );
+        }
+    }
+}
+
+pub fn run_pcase(case: &PCase) {
+    let s = spec(case.f);
+    cachelito_core::InvalidationRegistry::global().clear();
+    seams::set_now_ns(0);
+    seams::clear_sched_point();
+    dashmap::SHARDS.store(case.shards.max(1) as usize, std::sync::atomic::Ordering::Relaxed);
+    dashmap::SALT.store(case.salt, std::sync::atomic::Ordering::Relaxed);
+    fastrand::seed(case.salt);
+    world::reset_run(case.salt);
+    let mut sim = Sim { s, cfg: cfg_of(s), model: Model::new(cfg_of(s).params), now: 0 };
+    for op in &case.pre {
+        sim.other(op, "before the victim call");
+    }
+    // ---- the victim call, polled by hand
+    let (k, err, size, dur_ns, gates, inv, cif) = match &case.victim {
+        POp::Call { k, err, size, dur_ns, gates, inv, cif } => (*k, *err, *size, *dur_ns, *gates, *inv, *cif),
+        _ => unreachable!(),
+    };
+    let script = Script { err, size, shape: 0, dur_ns, gates, inv_verdict: inv, cif_verdict: cif };
+    world::set_plan(s.id, k, script);
+    let (n0, i0, c0) = world::with(|w| (w.execs.len(), w.inv_seen.len(), w.cif_seen.len()));
+    seams::set_now_ns(sim.now);
+    let now0 = sim.now;
+    let model_before = sim.model.clone();
+    let mut fut = (s.fut.expect("async function"))(k);
+    let waker = std::task::Waker::noop();
+    let mut cx = Context::from_waker(&waker);
+    let mut done: Option<crate::corpus::RetObs> = None;
+    for _ in 0..case.polls {
+        if done.is_some() {
+            break;
+        }
+        if let Poll::Ready(r) = fut.as_mut().poll(&mut cx) {
+            done = Some(r);
+        }
+    }
+    // what the first polls did: at most the lookup and the start of the body
+    let mut hit_stamp = None;
+    let mut begun = false;
+    let plan = |d: i64| CallPlan { k, err, dur_ns: d, inv_verdict: inv, cif_verdict: cif };
+    let obs_begin = |w_execs: &Vec<world::ExecRec>, invs: Vec<u64>, ret: Option<&crate::corpus::RetObs>| CallObs {
+        ret_stamp: ret.map_or(0, |r| r.stamp),
+        ret_err: ret.map_or(false, |r| r.is_err),
+        exec_stamp: w_execs.first().map(|e| e.stamp),
+        fp: ret.map_or(0, |r| r.fp),
+        inv_seen: invs,
+        cif_seen: vec![],
+        keys_after: None,
+        stats: None,
+    };
+    if case.polls > 0 && done.is_none() {
+        let (execs, invs) = world::with(|w| (w.execs[n0..].to_vec(), w.inv_seen[i0..].iter().map(|x| x.2).collect::<Vec<u64>>()));
+        if execs.is_empty() {
+            fail("harness", &["HARNESS"], "a pending victim call has not started its body".to_string());
+        }
+        match check_call_begin(&sim.model, &sim.cfg, &plan(0), &obs_begin(&execs, invs, None), now0) {
+            Ok((m1, h)) => {
+                sim.model = m1;
+                hit_stamp = h;
+                begun = true;
+            }
+            Err(c) => {
+                let c = to_c20(c, "victim lookup");
+                let o: Vec<&str> = c.owners.iter().map(|x| x.as_str()).collect();
+                fail(&c.name, &o, c.detail);
+            }
+        }
+        // the clock may have moved inside the body (time passes at the first await)
+        sim.now = seams::peek_now_ns();
+        sim.expect_keys("right after suspending the call");
+    }
+    // ---- the world goes on while the call is suspended (or not yet started)
+    if done.is_none() {
+        for op in &case.during {
+            sim.other(op, if case.polls == 0 { "while the call is created but not polled" } else { "while the call is suspended" });
+        }
+    }
+    // ---- resume or drop
+    if done.is_none() && case.resume {
+        seams::set_now_ns(sim.now);
+        let t_resume = sim.now;
+        let (n1, i1, c1) = world::with(|w| (w.execs.len(), w.inv_seen.len(), w.cif_seen.len()));
+        if !begun {
+            // the interleaved program may have planned calls for the same key: the victim's
+            // plan must be the current one when its body starts
+            world::set_plan(s.id, k, script);
+        }
+        let r = loop {
+            if let Poll::Ready(r) = fut.as_mut().poll(&mut cx) {
+                break r;
+            }
+        };
+        let now_end = seams::peek_now_ns();
+        let owner = world::with(|w| w.execs.iter().find(|e| e.stamp == r.stamp).map(|e| (e.fn_id, e.k)));
+        if owner != Some((s.id, k)) {
+            fail("wrong_value", &["C20", "C01"], format!("resumed call {}({k}) returned a value produced by {:?}", s.fn_name, owner));
+        }
+        let (execs, invs, cifs) = world::with(|w| (w.execs[n1..].to_vec(), w.inv_seen[i1..].to_vec(), w.cif_seen[c1..].to_vec()));
+        if !begun {
+            // never polled before: the whole call happens now, as an ordinary call
+            let obs = CallObs {
+                ret_stamp: r.stamp,
+                ret_err: r.is_err,
+                exec_stamp: execs.first().map(|e| e.stamp),
+                fp: r.fp,
+                inv_seen: invs.iter().map(|x| x.2).collect(),
+                cif_seen: cifs.iter().map(|x| x.2).collect(),
+                keys_after: Some(listed(s)),
+                stats: stats(s),
+            };
+            match check_call(&sim.model, &sim.cfg, &plan(now_end - t_resume), &obs, t_resume) {
+                Ok(m) => sim.model = m,
+                Err(c) => {
+                    let c = to_c20(c, "call polled for the first time after the interleaved program");
+                    let o: Vec<&str> = c.owners.iter().map(|x| x.as_str()).collect();
+                    fail(&c.name, &o, format!("{} | fn {} #[{}]", c.detail, s.fn_name, s.attrs));
+                }
+            }
+        } else {
+            if !execs.is_empty() || !invs.is_empty() {
+                fail("resumed_call_looked_up_again", &["C20"], format!("resuming {}({k}) ran bodies {:?} / consulted invalidate_on {:?}", s.fn_name, execs, invs));
+            }
+            let obs = CallObs {
+                ret_stamp: r.stamp,
+                ret_err: r.is_err,
+                exec_stamp: Some(r.stamp),
+                fp: r.fp,
+                inv_seen: vec![],
+                cif_seen: cifs.iter().map(|x| x.2).collect(),
+                keys_after: Some(listed(s)),
+                stats: stats(s),
+            };
+            match check_call_end(&model_before, &sim.model, &sim.cfg, &plan(0), &obs, hit_stamp, now_end, now0) {
+                Ok(m) => sim.model = m,
+                Err(c) => {
+                    let c = to_c20(c, "a resumed call must store as an ordinary completion at resume time");
+                    let o: Vec<&str> = c.owners.iter().map(|x| x.as_str()).collect();
+                    fail(&c.name, &o, format!("{} | fn {} #[{}]", c.detail, s.fn_name, s.attrs));
+                }
+            }
+        }
+        sim.now = now_end;
+    } else if done.is_none() {
+        drop(fut);
+        sim.expect_keys("right after dropping the call");
+    } else if let Some(r) = done {
+        // completed within the given polls: an ordinary call
+        let now_end = seams::peek_now_ns();
+        let (execs, invs, cifs) = world::with(|w| (w.execs[n0..].to_vec(), w.inv_seen[i0..].to_vec(), w.cif_seen[c0..].to_vec()));
+        let obs = CallObs {
+            ret_stamp: r.stamp,
+            ret_err: r.is_err,
+            exec_stamp: execs.first().map(|e| e.stamp),
+            fp: r.fp,
+            inv_seen: invs.iter().map(|x| x.2).collect(),
+            cif_seen: cifs.iter().map(|x| x.2).collect(),
+            keys_after: Some(listed(s)),
+            stats: stats(s),
+        };
+        match check_call(&sim.model, &sim.cfg, &plan(now_end - now0), &obs, now0) {
+            Ok(m) => sim.model = m,
+            Err(c) => {
+                let c = to_c20(c, "victim completed");
+                let o: Vec<&str> = c.owners.iter().map(|x| x.as_str()).collect();
+                fail(&c.name, &o, c.detail);
+            }
+        }
+        sim.now = now_end;
+    }
+    // ---- afterwards the cache behaves as the model says
+    for op in &case.post {
+        sim.other(op, if case.resume { "after the call was resumed" } else { "after the call was dropped" });
+    }
+}
+
+// ---------------------------------------------------------------------------------------
+
+fn gen_call(r: &mut Rng, s: &FnSpec, k: Key, whole: bool) -> POp {
+    let size = match s.max_memory {
+        None => r.below(9) as u32,
+        Some(m) => {
+            let m = m as u64;
+            *r.pick(&[0, m / 8, m / 4, m / 3, m / 2, m.saturating_sub(64), m.saturating_sub(40), m + 1]) as u32
+        }
+    };
+    POp::Call {
+        k,
+        err: s.is_result && r.chance(1, 4),
+        size,
+        dur_ns: if whole { *r.pick(&[0, 0, SEC]) } else { *r.pick(&[0, 0, 1, SEC / 2, SEC, 2 * SEC]) },
+        gates: r.range(1, 3) as u8,
+        inv: r.chance(3, 10),
+        cif: r.chance(7, 10),
+    }
+}
+
+/// The base case of a seed; the batch runner then enumerates polls x {resume, drop}.
+pub fn gen_base(seed: u64, run: u64) -> PCase {
+    let mut r = Rng::new(seed);
+    let pool: Vec<&FnSpec> = SPECS.iter().filter(|s| s.is_async && registered(s)).collect();
+    // walk through all async functions, one per run
+    let s = pool[(run % pool.len() as u64) as usize];
+    let whole = s.policy == Policy::Tlru && s.ttl.is_some();
+    let cap = s.limit.unwrap_or(3);
+    let nk = (s.nkeys as u64).min(cap as u64 + 2).max(1);
+    let k0 = r.below(nk) as Key;
+    let steps: Vec<i64> = if whole { vec![SEC, 2 * SEC, 3 * SEC] } else { vec![0, 1, SEC / 2, SEC, 2 * SEC, 3 * SEC, 4 * SEC] };
+    let mut pre = Vec::new();
+    for _ in 0..r.below(5) {
+        match r.below(6) {
+            0..=3 => {
+                let k = if r.chance(1, 3) { k0 } else { r.below(nk) as Key };
+                pre.push(gen_call(&mut r, s, k, whole));
+            }
+            _ => pre.push(POp::Adv(*r.pick(&steps))),
+        }
+    }
+    let victim = gen_call(&mut r, s, k0, whole);
+    let mut during = Vec::new();
+    // always probe the locks: the same key and another one
+    during.push(gen_call(&mut r, s, k0, whole));
+    for _ in 0..r.below(4) {
+        match r.below(8) {
+            0..=2 => {
+                let k = r.below(nk) as Key;
+                during.push(gen_call(&mut r, s, k, whole));
+            }
+            3 => during.push(POp::Adv(*r.pick(&steps))),
+            4 | 5 => during.push(POp::InvWith(r.below(256) as u8)),
+            6 => during.push(POp::InvName),
+            _ => during.push(POp::InvTag(s.tags.first().map_or("x".to_string(), |t| t.to_string()))),
+        }
+    }
+    if r.chance(1, 2) {
+        let n = during.len() - 1;
+        during.swap(0, n);
+    }
+    let mut post = Vec::new();
+    post.push(gen_call(&mut r, s, k0, whole));
+    for _ in 0..r.below(4) {
+        let k = r.below(nk) as Key;
+        post.push(gen_call(&mut r, s, k, whole));
+    }
+    PCase { f: s.id, pre, victim, polls: 1, resume: true, during, post, shards: *r.pick(&[1u8, 2, 4]), salt: r.next_u64() }
+}
+
+fn panic_text(e: Box<dyn std::any::Any + Send>) -> String {
+    if let Some(s) = e.downcast_ref::<&str>() {
+        s.to_string()
+    } else if let Some(s) = e.downcast_ref::<String>() {
+        s.clone()
+    } else {
+        "panic".to_string()
+    }
+}
+
+fn parse_panic(msg: &str) -> Clause {
+    if let Some(rest) = msg.strip_prefix("CLAUSE|") {
+        let mut it = rest.splitn(3, '|');
+        let name = it.next().unwrap_or("oracle");
+        let owners: Vec<&str> = it.next().unwrap_or("").split(',').filter(|s| !s.is_empty()).collect();
+        let detail = it.next().unwrap_or("").to_string();
+        return Clause::new(name, &owners, detail);
+    }
+    let low = msg.to_lowercase();
+    if low.contains("deadlock") || low.contains("already holds") {
+        return Clause::new("lock_held_across_await", &["C20"], format!("an operation blocked while the call was suspended: {}", msg.lines().next().unwrap_or("")));
+    }
+    Clause::new("panic_in_execution", &["C20", "C16"], msg.lines().next().unwrap_or("").to_string())
+}
+
+pub fn execute(case: &PCase) -> Option<Clause> {
+    let c = Arc::new(case.clone());
+    let res = catch_unwind(AssertUnwindSafe(|| {
+        let runner = shuttle::Runner::new(shuttle::scheduler::RandomScheduler::new_from_seed(case.salt, 1), quiet_config(2_000_000));
+        runner.run(move || run_pcase(&c));
+    }));
+    res.err().map(|e| parse_panic(&panic_text(e)))
+}
+
+fn child_fails(dir: &PathBuf, case: &PCase, clause: &str) -> bool {
+    std::fs::create_dir_all(dir.join("tmp")).ok();
+    let path = dir.join("tmp").join(format!("cand-poll-{}.json", std::process::id()));
+    let rp = Replay { property: "C20".into(), clause: clause.into(), signature: String::new(), detail: String::new(), engine: "poll".into(), run_seed: 0, case: serde_json::to_value(case).unwrap() };
+    std::fs::write(&path, serde_json::to_string(&rp).unwrap()).expect("write");
+    let st = std::process::Command::new(std::env::current_exe().unwrap()).arg("replay").arg(&path).arg("--quiet").stdout(std::process::Stdio::null()).stderr(std::process::Stdio::null()).status();
+    let _ = std::fs::remove_file(&path);
+    matches!(st.map(|s| s.code()), Ok(Some(1)))
+}
+
+fn minimise(dir: &PathBuf, case: &PCase, clause: &str) -> PCase {
+    let mut best = case.clone();
+    let budget = std::time::Duration::from_secs(15);
+    for part in 0..3 {
+        let base = best.clone();
+        let ops = match part {
+            0 => base.post.clone(),
+            1 => base.during.clone(),
+            _ => base.pre.clone(),
+        };
+        if ops.is_empty() {
+            continue;
+        }
+        let mut pred = |o: &[POp]| {
+            let mut t = base.clone();
+            match part {
+                0 => t.post = o.to_vec(),
+                1 => t.during = o.to_vec(),
+                _ => t.pre = o.to_vec(),
+            }
+            child_fails(dir, &t, clause)
+        };
+        // an empty list is a legal candidate too
+        if pred(&[]) {
+            match part {
+                0 => best.post.clear(),
+                1 => best.during.clear(),
+                _ => best.pre.clear(),
+            }
+            continue;
+        }
+        let kept = ddmin(ops, &mut pred, budget);
+        match part {
+            0 => best.post = kept,
+            1 => best.during = kept,
+            _ => best.pre = kept,
+        }
+    }
+    best
+}
+
+pub fn run_batch(prop: &str, seed: u64, start: u64, runs: u64, dir: &PathBuf, known: &BTreeSet<String>, digests: bool) -> i32 {
+    crate::scen::calibrate();
+    let mut res = WorkerResult { property: prop.to_string(), engine: "poll".into(), rule: RULE.to_string(), ..Default::default() };
+    let mut kinds_seen: BTreeMap<String, u64> = BTreeMap::new();
+    'runs: for run in start..start + runs {
+        let run_seed = mix(&[seed, hash_str(prop), hash_str("poll"), run]);
+        let base = gen_base(run_seed, run);
+        let gates = match &base.victim {
+            POp::Call { gates, .. } => *gates,
+            _ => 1,
+        };
+        res.runs += 1;
+        // every poll boundary (0 = created but never polled, 1..=gates = suspended at that await) x {resume, drop}
+        for polls in 0..=gates {
+            for resume in [true, false] {
+                let mut case = base.clone();
+                case.polls = polls;
+                case.resume = resume;
+                res.ops += (case.pre.len() + case.during.len() + case.post.len() + 1) as u64;
+                let out = execute(&case);
+                res.counters.inc(&format!("fault.{}_at_await_{}", if resume { "suspend_resume" } else { "cancel" }, polls));
+                res.counters.inc(&format!("family.{}", spec(case.f).family));
+                let kinds: BTreeSet<&str> = case.during.iter().map(|o| match o { POp::Call { .. } => "call", POp::Adv(_) => "adv", POp::InvWith(_) => "inv_with", POp::InvName => "inv_name", POp::InvTag(_) => "inv_tag" }).collect();
+                let cls = format!("f{}|{}|{}|{:?}", case.f, polls, resume, kinds);
+                *kinds_seen.entry(cls.clone()).or_insert(0) += 1;
+                res.distinct.insert(hash_str(&cls));
+                res.states.insert(hash_str(&format!("{}{}{}", run_seed, polls, resume)));
+                if digests {
+                    println!("DIGEST {run}.{polls}.{resume} {:016x}", world::with(|w| w.seq));
+                }
+                if res.samples.len() < 2 && polls == 1 {
+                    res.samples.push(serde_json::json!({"run": run, "run_seed": run_seed, "function": format!("{} #[{}]", spec(case.f).fn_name, spec(case.f).attrs), "case": case}));
+                }
+                if let Some(c) = out {
+                    if c.owned_by(prop) {
+                        let sig = format!("{}|{:?}|{}|polls={}|resume={}", c.name, spec(case.f).policy, if spec(case.f).has_inv_on { "inv_on" } else { "-" }, polls.min(1), resume);
+                        if known.contains(&sig) {
+                            println!("KNOWN-FINDING: property={prop} {sig} {}", c.detail);
+                            break 'runs;
+                        }
+                        let min = minimise(dir, &case, &c.name);
+                        let rp = Replay { property: prop.into(), clause: c.name.clone(), signature: sig.clone(), detail: c.detail.clone(), engine: "poll".into(), run_seed, case: serde_json::to_value(&min).unwrap() };
+                        std::fs::create_dir_all(dir).ok();
+                        let path = dir.join(format!("{}-poll-{:016x}.json", prop, run_seed));
+                        std::fs::write(&path, serde_json::to_string_pretty(&rp).unwrap()).expect("write replay");
+                        println!("VIOLATION property={} replay={}", prop, path.display());
+                        println!("  clause={} signature={}", c.name, sig);
+                        println!("  {}", c.detail);
+                        res.violations.push(ViolationRef { property: prop.into(), clause: c.name.clone(), detail: c.detail.clone(), replay: path.display().to_string(), signature: sig });
+                    } else {
+                        res.foreign_deviations += 1;
+                        res.counters.inc(&format!("foreign.{}", c.name));
+                    }
+                    // never reuse a process after a failed execution
+                    break 'runs;
+                }
+            }
+        }
+    }
+    println!("RESULT {}", serde_json::to_string(&res).unwrap());
+    if res.violations.is_empty() {
+        0
+    } else {
+        1
+    }
+}
+
+pub fn replay(rp: &Replay, path: &str, quiet: bool) -> i32 {
+    let case: PCase = serde_json::from_value(rp.case.clone()).expect("case");
+    crate::scen::calibrate();
+    match execute(&case) {
+        Some(c) if c.name == rp.clause && c.owned_by(&rp.property) => {
+            if !quiet {
+                println!("  case: {}", serde_json::to_string(&case).unwrap());
+                println!("VIOLATION property={} replay={}", rp.property, path);
+                println!("  clause={}: {}", c.name, c.detail);
+            }
+            1
+        }
+        o => {
+            if !quiet {
+                println!("NOT-REPRODUCED property={} expected clause {} got {:?}", rp.property, rp.clause, o.map(|c| c.name));
+            }
+            3
+        }
+    }
+}
